@@ -3,17 +3,26 @@
 The check is a sequence of stages; each stage adds closed-model runs, behaviours replayed on the real code and
 validated traces to the same Run.  Stage `static` (StaticPool.tla, this file + checks/staticpool_common.py) covers the
 replica-based half of the statement; the dynamic-limits half (scheduler remainingResources / subtractMax / Synced gate,
-Scheduling.tla on the scheduling driver) is appended to STAGES by its builder."""
+MultiPass.tla on the multi-pass provisioning driver, checks/multipass_common.py) is the stage `dynamic`."""
+import json
+import os
+
+from checks import multipass_common as mp
 from checks import staticpool_common as sp
 
 
 def check(run):
+    only = os.environ.get("VERIF_STAGE")      # developer aid (e.g. VERIF_STAGE=dynamic), never used by registered commands
     for stage in STAGES:
-        stage(run)
+        if not only or stage.__name__ == "stage_" + only:
+            stage(run)
 
 
 def replay(run, path):
-    sp.replay(run, path)
+    if json.load(open(path)).get("guard") in mp.GUARDS:      # a violation found by the dynamic-limits stage
+        mp.replay(run, path)
+    else:
+        sp.replay(run, path)
 
 
-STAGES = [sp.stage_static]
+STAGES = [sp.stage_static, mp.stage_dynamic]
